@@ -7,6 +7,7 @@ fn main() {
     if args[1] == "replay" {
         let path = args.get(2).map(|s| s.as_str()).unwrap_or("");
         let kind = std::fs::read_to_string(path).ok().and_then(|t| serde_json::from_str::<serde_json::Value>(&t).ok());
+        if let Some(v) = &kind { if v["kind"].as_str() == Some("tokio-backoff-probe") { let problems = mc::drivers::tokio_h::backoff_probe(); for (s, d) in &problems { println!("{} :: {}", s, d); } std::process::exit(if problems.is_empty() { 0 } else { 1 }); } }
         if let Some(v) = &kind { if v["kind"].as_str() == Some("lifecycle-history") { std::process::exit(mc::lifecycle::replay_file(v)); } if v["kind"].as_str() == Some(mc::drivers::REPLAY_KIND) && v.get("spec").is_some() { std::process::exit(mc::drivers::replay_file(v)); } if v["kind"].as_str() == Some(mc::drivers::ws::REPLAY_KIND) { std::process::exit(mc::drivers::ws::replay_file(v)); } }
         std::process::exit(mc::engine::run::replay_file(path));
     }
